@@ -356,6 +356,65 @@ impl Check for C20 {
         // descriptor lane
         let kind = crate::checks::c01::pick_kind(src);
         let size = src.range(1, 8);
+        if src.chance(1, 3) {
+            // descriptors that only the constructors accept (consensus-valid scripts: leaves
+            // without keys, repeated keys, constants), concrete keys
+            let d = gen::gen_desc(src, kind, &|ctx| {
+                let mut c = Cfg::new(ctx, size);
+                c.key_style = KeyStyle::Hex;
+                c.leaf_w = [4, 3, 3];
+                c
+            });
+            let sugar = src.bool();
+            rep.desc = format!("[ctor] {}", d.print(sugar));
+            let lib = match glue::desc_via_ctor(&d, glue::Level::Insane, sugar) {
+                Ok(l) => l,
+                Err(_) => {
+                    rep.class("rejected");
+                    return Ok(());
+                }
+            };
+            rep.class("ctor-insane");
+            let want = multiset(d.all_keys());
+            let it: Vec<String> = lib.iter_pk().map(|k| k.to_string()).collect();
+            if multiset(it.clone()) != want {
+                return fail(&format!("iter-pk/descriptor/{}", d.kind()), format!("iter_pk yields {:?} but the descriptor has keys {:?} ({})", it, want, rep.desc));
+            }
+            let mut seen = Vec::new();
+            lib.for_each_key(|k| {
+                seen.push(k.to_string());
+                true
+            });
+            if multiset(seen.clone()) != want {
+                return fail(&format!("for-each-key/descriptor/{}", d.kind()), format!("for_each_key visited {:?}, descriptor keys {:?}", seen, want));
+            }
+            {
+                let text = lib.to_string();
+                let body = text.split('#').next().unwrap_or("");
+                let mut uniq = want.clone();
+                uniq.dedup();
+                for k in &uniq {
+                    let n_text = body.matches(k.as_str()).count();
+                    let n_want = want.iter().filter(|x| *x == k).count();
+                    if n_text != n_want {
+                        return fail("keys-in-text/descriptor", format!("string form {} shows key {} {} times, iteration {} times", lib, k, n_text, n_want));
+                    }
+                }
+            }
+            if let Some(bad) = want.first().cloned() {
+                if lib.for_each_key(|k| k.to_string() != bad) {
+                    return fail("for-each-key-pred/descriptor", format!("for_each_key true although {} fails", bad));
+                }
+            }
+            let id = lib.translate_pk(&mut IdentDk).map_err(|_| Failure { sig: "identity-fails/descriptor".into(), msg: "identity failed".into() })?;
+            if id != lib || id.to_string() != lib.to_string() || glue::mdesc_from_lib(&id).ok().as_ref() != Some(&d) {
+                return fail("identity/descriptor", format!("identity translation of {} gives {}", lib, id));
+            }
+            if want.len() >= 2 || d.nodes().len() >= 2 {
+                rep.nontrivial_by(&rep.desc.clone());
+            }
+            return Ok(());
+        }
         let d = gen::gen_desc(src, kind, &|ctx| {
             let mut c = Cfg::sane(ctx, size);
             c.key_style = KeyStyle::Hex;
@@ -446,3 +505,14 @@ impl Check for C20 {
 }
 
 fn src_free_bool(x: usize) -> bool { x % 2 == 0 }
+
+struct IdentDk;
+impl Translator<DK> for IdentDk {
+    type TargetPk = DK;
+    type Error = ();
+    fn pk(&mut self, pk: &DK) -> Result<DK, ()> { Ok(pk.clone()) }
+    fn sha256(&mut self, h: &<DK as MiniscriptKey>::Sha256) -> Result<<DK as MiniscriptKey>::Sha256, ()> { Ok(*h) }
+    fn hash256(&mut self, h: &<DK as MiniscriptKey>::Hash256) -> Result<<DK as MiniscriptKey>::Hash256, ()> { Ok(*h) }
+    fn ripemd160(&mut self, h: &<DK as MiniscriptKey>::Ripemd160) -> Result<<DK as MiniscriptKey>::Ripemd160, ()> { Ok(*h) }
+    fn hash160(&mut self, h: &<DK as MiniscriptKey>::Hash160) -> Result<<DK as MiniscriptKey>::Hash160, ()> { Ok(*h) }
+}
